@@ -133,6 +133,7 @@ func runC16(p *Prog, r *Report) {
 	r.Describe("C16.6/handshake-validation", "malformed or mismatched headers never yield a pipe and never look like 'listener closed' to the accept loop")
 	handshakeValidation(p, r, "C16.6/handshake-validation")
 	c16PipeErrors(p, r)
+	crashSurface(p, r, "C16.12/crash-surface")
 }
 
 // recvLimitRules: shared by C01.4 and C16.3.
